@@ -260,6 +260,45 @@ func (g *cgen) scriptedOp() (ContOp, bool) {
 	}
 }
 
+// tupleOp: copies between lists and the two observed tuples t0/t1 (a tuple
+// never changes, whatever is done to a list built from it or to the list it
+// was built from).
+func (g *cgen) tupleOp() (ContOp, bool) {
+	r := g.r
+	z := r.Intn(nAlias)
+	t := fmt.Sprintf("t%d", r.Intn(2))
+	v := g.val()
+	switch r.Intn(8) {
+	case 0:
+		g.typ[z] = "list"
+		return st("tuple.list-ctor", fmt.Sprintf("%s = list(%s)", a(z), t))
+	case 1:
+		g.typ[z] = "list"
+		return st("tuple.sorted", fmt.Sprintf("%s = sorted(%s)", a(z), t))
+	case 2:
+		xi, ok := g.of("list")
+		if !ok {
+			return ContOp{}, false
+		}
+		return st("tuple.from-list", fmt.Sprintf("%s = tuple(%s)", t, a(xi)))
+	case 3:
+		g.typ[z] = "list"
+		return st("tuple.list-then-write", fmt.Sprintf("%s = list(%s)\nif %s:\n    %s[0] = %s\n    %s.sort()", a(z), t, a(z), a(z), v, a(z)))
+	case 4:
+		g.typ[z] = "list"
+		return st("tuple.list-then-del", fmt.Sprintf("%s = list(%s)\nif %s:\n    del %s[0]\n%s.append(%s)", a(z), t, a(z), a(z), a(z), v))
+	case 5:
+		// a constant tuple of a code object, copied on every call
+		g.typ[z] = "list"
+		return st("tuple.const-in-func", fmt.Sprintf("def _mk():\n    return list((4, 2, 9))\n%s = _mk()\n%s[%d] = %s\n%s.sort()\nlog(\"again\", _mk())", a(z), a(z), r.Intn(3), v, a(z)))
+	case 6:
+		g.typ[z] = "list"
+		return st("tuple.slice-ctor", fmt.Sprintf("%s = list(%s[1:])\n%s.append(%s)", a(z), t, a(z), v))
+	default:
+		return ex("tuple.observe", fmt.Sprintf("(len(%s), list(%s), %s == tuple(list(%s)), sorted(%s))", t, t, t, t, t))
+	}
+}
+
 func (g *cgen) op(mixed bool) (ContOp, bool) {
 	r := g.r
 	if r.Chance(1, 8) {
@@ -267,6 +306,9 @@ func (g *cgen) op(mixed bool) (ContOp, bool) {
 	}
 	if r.Chance(1, 8) {
 		return g.scriptedOp()
+	}
+	if r.Chance(1, 10) {
+		return g.tupleOp()
 	}
 	switch r.Intn(10) {
 	case 0, 1, 2, 3, 4, 5:
@@ -505,10 +547,12 @@ func (p *ContProg) Render() string {
 	for i, e := range p.Init {
 		fmt.Fprintf(&b, "a%d = %s\n", i, e)
 	}
+	b.WriteString("t0 = (3, 1, 2)\nt1 = (0, 5, 4, 5, 1)\n")
 	names := make([]string, nAlias)
 	for i := range names {
 		names[i] = a(i)
 	}
+	names = append(names, "t0", "t1")
 	dump := "log(\"D\", " + strings.Join(names, ", ") + ")\n"
 	b.WriteString(dump)
 	for i, op := range p.Ops {
